@@ -27,8 +27,9 @@ INDEP = {
     "T13": {"i": 0},
     "T14": {"i": 0, "j": 1},
     "T16": {"i": 0},
+    "T18": {"k": 1},
 }
-REDUCED = {"T4": ["i", "j"], "T5": ["i", "j"], "T8": ["i"], "T12": ["i", "j"], "T10": ["j"]}
+REDUCED = {"T4": ["i", "j"], "T5": ["i", "j"], "T8": ["i"], "T12": ["i", "j"], "T10": ["j"], "T18": ["i"]}
 
 
 NMODES = 7
@@ -258,7 +259,7 @@ def obligations(tier):
                       f"H.reject({tid!r}, 'unknown', idx, {MAP_ARGS})", timeout=120, bounds=f"{tid}: unknown axis name"))  # fmt: skip
         obs.append(Ob(f"reject_range_{tid}", [("idx", "int")] + MAP_PARAMS, ["-5 <= idx <= 5"] + tmpl.size_pre(T[tid], hi),
                       f"H.reject({tid!r}, 'range', idx, {MAP_ARGS})", timeout=200, bounds=f"{tid}: index outside [-size, size)"))  # fmt: skip
-    ltids = ["T1", "T3", "T4", "T8", "T13"] + (["T5", "T6", "T7", "T10", "T12", "T16"] if thorough else [])
+    ltids = ["T1", "T3", "T4", "T8", "T9", "T13", "T14"] + (["T5", "T6", "T7", "T10", "T12", "T16", "T18"] if thorough else [])
     for tid in ltids:
         t = T[tid]
         for st in ("file_array",) + (("dict",) if thorough else ()):
@@ -266,7 +267,7 @@ def obligations(tier):
                 Ob(
                     f"learners_{tid}_{st}",
                     [("split", "bool"), ("order_sel", "int")] + MAP_PARAMS,
-                    ["0 <= order_sel <= 2"] + tmpl.size_pre(t, 2) + (["not split"] if tid in ("T8",) else []),
+                    ["0 <= order_sel <= 2"] + (["1 <= n0 <= 2 and 1 <= n1 <= 3 and n2 == 1"] if tid in ("T9", "T14") else tmpl.size_pre(t, 2)) + (["not split"] if tid in ("T8",) else []),
                     f"H.learners({tid!r}, {st!r}, split, order_sel, {MAP_ARGS})",
                     timeout=500,
                     flags=("tokpickle",),
